@@ -576,6 +576,7 @@ def agree_paths(
             segs = strip(segs)
         best: t.Optional[Mismatch] = None
         matched = False
+        content: t.List[Mismatch] = []
         for ri, r in enumerate(rpaths):
             m = Matcher(repo, Table(segs, Lin(base)), src, size_of=sizes.size)
             for fld in cls.fields():
@@ -622,12 +623,22 @@ def agree_paths(
                                 prob = Mismatch(f"decode(encode(x)).{name} is not x.{name}: {why}", None, len(r.reads) + 1)
                                 break
             if prob is None:
+                if not matched:
+                    v.pairs.append((wi, ri))
+                    v.notes += m.notes
                 matched = True
-                v.pairs.append((wi, ri))
-                v.notes += m.notes
-                break
+                continue
+            # a reader path that reads these bytes without complaint and is selected by a comparison with *content* the
+            # writer path leaves open (a field's own bytes): some values of that field take it, so it must decode them too
+            undecided = [c for c, _pol in r.conds if c.info.get("lit_read") is not None and c.info.get("lit_read") not in m.cond_truth]
+            if undecided and prob.progress == len(r.reads) + 1 and not _absent_alias(prob.what, undecided, r, m, w, wpaths, sizes, strip, base):
+                when0 = ", ".join(f"{'' if p_ else 'not '}{c_.desc}" for c_, p_ in w.conds) or "always"
+                content.append(Mismatch(f"writer path [{when0}]: for the field values with {' and '.join(('' if p_ else 'not ') + c_.desc for c_, p_ in r.conds if c_ in undecided)}: {prob.what}", prob.node, prob.progress))
             if prob.progress >= 0 and (best is None or prob.progress > best.progress):
                 best = prob
+        if matched and content:
+            v.ok = False
+            v.problems.append(content[0])
         if not matched:
             v.ok = False
             when = ", ".join(f"{'' if p else 'not '}{c.desc}" for c, p in w.conds) or "always"
@@ -635,6 +646,49 @@ def agree_paths(
             b.what = f"writer path [{when}]: {b.what}"
             v.problems.append(b)
     return v
+
+
+def _absent_alias(what: str, undecided: t.List[t.Any], r: t.Any, m: "Matcher", w: t.Any, wpaths: t.List[t.Any], sizes: "Sizes", strip: t.Any, base: int) -> bool:
+    """The reader maps a particular content (all zero bytes) of an optional field to None.  That is a second spelling
+    of 'absent' - and re-encoding stays byte identical - exactly when the writer path for the absent field writes that
+    very content at that place.  (A field whose absence is signalled elsewhere, e.g. by a flag, has no such path: the
+    value is lost and the re-encoded message is shorter.)"""
+    if "reader yields None for " not in what:
+        return False
+    if len(undecided) > 1:
+        return any(_absent_alias(what, [c_], r, m, w, wpaths, sizes, strip, base) for c_ in undecided)
+    path = what.split("reader yields None for ", 1)[1].split(" ", 1)[0]
+    c = undecided[0]
+    rid, expect = c.info.get("lit_read"), c.info.get("expect")
+    rd = next((x for x in r.reads if x.rid == rid), None)
+    if rd is None or not isinstance(expect, (bytes, bytearray)):
+        return False
+    lo = m.sub(rd.lo)
+    rest = sorted((cc.desc, pp) for cc, pp in w.conds if cc.info.get("truthy") != path)
+    for w2 in wpaths:
+        if not any(cc.info.get("truthy") == path and pp is False for cc, pp in w2.conds):
+            continue
+        if sorted((cc.desc, pp) for cc, pp in w2.conds if cc.info.get("truthy") != path) != rest:
+            continue
+        segs2 = sizes._expand(w2.segs)
+        if strip is not None:
+            segs2 = strip(segs2)
+        tb = Table(segs2, Lin(base))
+        i = tb.find(lo)
+        if i is None:
+            continue
+        got = b""
+        j = i
+        while j < len(tb.segs) and len(got) < len(expect):
+            sg = tb.segs[j]
+            bts = seg_bytes(sg)
+            if bts is None:
+                break
+            got += bts
+            j += 1
+        if got[: len(expect)] == bytes(expect):
+            return True
+    return False
 
 
 def agree_delegate(
